@@ -79,3 +79,10 @@ Theorem c25_queue_deduped : forall ops,
   forall k, mem k (pend (fst (run ops))) = true <-> In k (qkeys (q (fst (run ops)))).
 Proof. exact queue_deduped. Qed.
 Print Assumptions c25_queue_deduped.
+
+(* the specification oracle used on the implementation's output accepts every run of the model, for every
+   history (so a correspondence failure of the oracle is never an artefact of the oracle itself) *)
+Theorem c25_model_meets_spec : forall ops,
+  ok_case {| c_ops := ops; c_outs := run_obs init ops |} = true.
+Proof. exact model_meets_spec. Qed.
+Print Assumptions c25_model_meets_spec.
